@@ -16,7 +16,7 @@ RULE = ('Case = a FastbootCommands entry point (getvar, oem, erase, flash, reboo
         'image of size in {0,1,c-1,c,c+1,2c-1,2c,2c+1,3c+7} for chunk size c=1 KiB, as file object with and without source_len) x a '
         'device response sequence over {INFO x, OKAY x, DATA(size=image), DATA(size!=image), FAIL x, garbage header}.  ALL '
         'sequences up to length 3 (quick) / 4 (thorough) are enumerated for every entry point class, longer ones are drawn by '
-        'Hypothesis; progress callback in {none, recording, raising} x {function, lambda, bound method, functools.partial, callable object}.  Oracle = a reference state machine written from the '
+        'Hypothesis; device texts behind INFO/OKAY/FAIL/unknown headers from a list with %-signs, braces, newlines, 60-byte and non-ASCII texts (and drawn); progress callback in {none, recording, raising} x {function, lambda, bound method, functools.partial, callable object}.  Oracle = a reference state machine written from the '
         'statement: exactly one "command[:arg]" packet per command ("download:%08x"), INFO packets forwarded to the callback in '
         'order, return value = payload of the terminating OKAY, FAIL -> FastbootRemoteFailureError carrying the text, out-of-place '
         'DATA/OKAY -> FastbootStateMismatchError, other header -> FastbootInvalidResponseError; image bytes only after DATA with '
@@ -38,28 +38,34 @@ def image(n):
   return ''.join(chr(33 + (i * 7 + i // 251) % 90) for i in range(n))
 
 
-def packets_of(seq, size):
+# what the device puts behind the 4-byte header: free text (fastboot packets are at most 64 bytes)
+TEXTS = [None, '', '100% full', 'battery at 15%', '%s', '%d items', 'a%%b', '%', '{0} {name}', 'line1\nline2', 'x' * 60, 'caf\xe9',
+         'OKAY', 'FAILED: not allowed', ' leading and trailing ']
+
+
+def packets_of(seq, size, texts=None):
   out = []
   for i, s in enumerate(seq):
+    t = (texts or [None])[i % len(texts or [None])]
     if s == 'INFO':
-      out.append('INFOinfo-%d' % i)
+      out.append('INFO' + ('info-%d' % i if t is None else t))
     elif s == 'OKAY':
-      out.append('OKAYok-%d' % i)
+      out.append('OKAY' + ('ok-%d' % i if t is None else t))
     elif s == 'DATA=':
       out.append('DATA%08x' % size)
     elif s == 'DATA!':
       out.append('DATA%08x' % (size + 1))
     elif s == 'FAIL':
-      out.append('FAILbecause-%d' % i)
+      out.append('FAIL' + ('because-%d' % i if t is None else t))
     else:
-      out.append('JUNKxyz-%d' % i)
+      out.append('JUNK' + ('xyz-%d' % i if t is None else t))
   return out
 
 
-def reference(kind, seq, size):
+def reference(kind, seq, size, texts=None):
   """Returns dict(result=('ok', value)|('exc', name, text), infos=[...], consumed=n, image_sent=bool)."""
   infos = []
-  pk = packets_of(seq, size)
+  pk = packets_of(seq, size, texts)
   pos = 0
 
   def accept(expected):
@@ -102,7 +108,7 @@ def check(case):
   fp.FASTBOOT_DOWNLOAD_CHUNK_SIZE_KB = 1
   kind = case['cmd'][0]
   size = case['cmd'][1] if kind == 'download' else 0
-  dev = fk.ScriptedBootloader(packets_of(case['seq'], size))
+  dev = fk.ScriptedBootloader(packets_of(case['seq'], size, case.get('texts')))
   fc = fp.FastbootCommands(dev)
   infos, progress = [], []
 
@@ -168,7 +174,7 @@ def check(case):
     exp_packet = {'download': 'download:%08x' % size, 'getvar': 'getvar:%s' % arg, 'oem': 'oem %s' % arg, 'erase': 'erase:%s' % arg,
                   'flash': 'flash:%s' % arg, 'reboot': 'reboot' if arg is None else 'reboot:%s' % arg,
                   'reboot_bootloader': 'reboot-bootloader', 'continue_': 'continue'}[name]
-  ref = reference(kind, case['seq'], size)
+  ref = reference(kind, case['seq'], size, case.get('texts'))
   uses_info_cb = kind in ('download', 'getvar', 'oem', 'flash')
   # command packet
   if not dev.packets or dev.packets[0] != exp_packet:
@@ -229,8 +235,12 @@ CB_KINDS = ['function', 'lambda', 'method', 'partial', 'object']
 def exhaustive_cases(maxlen):
   for n in range(0, maxlen + 1):
     for seq in itertools.product(ALPHABET, repeat=n):
-      for cmd in COMMANDS:
+      for ci, cmd in enumerate(COMMANDS):
         yield {'cmd': cmd, 'seq': list(seq), 'progress': 'none'}
+        if n and 'DATA=' not in seq and 'DATA!' not in seq:
+          # the same reply sequence with device-chosen texts, rotated through TEXTS
+          rot = (ci + 3 * n + sum(map(len, seq))) % len(TEXTS)
+          yield {'cmd': cmd, 'seq': list(seq), 'progress': 'none', 'texts': [TEXTS[(rot + j) % len(TEXTS)] for j in range(n)]}
       for k, size in enumerate(SIZES):
         for cb_kind in CB_KINDS:
           progress = ['none', 'rec', 'raise'][(k + n) % 3]
@@ -242,11 +252,13 @@ def exhaustive_cases(maxlen):
 @st.composite
 def drawn_cases(draw):
   seq = draw(st.lists(st.sampled_from(ALPHABET + ['INFO', 'INFO']), min_size=4, max_size=8))
+  texts = draw(st.lists(st.one_of(st.sampled_from(TEXTS), st.text(alphabet=[chr(i) for i in range(32, 256)] + ['%', '%', '\n'], max_size=60)),
+                        min_size=1, max_size=8))
   if draw(st.booleans()):
-    return {'cmd': draw(st.sampled_from(COMMANDS)), 'seq': seq, 'progress': 'none'}
+    return {'cmd': draw(st.sampled_from(COMMANDS)), 'seq': seq, 'progress': 'none', 'texts': texts}
   size = draw(st.one_of(st.sampled_from(SIZES), st.integers(0, 4 * CHUNK)))
   return {'cmd': ['download', size, draw(st.booleans())], 'seq': seq, 'progress': draw(st.sampled_from(['none', 'rec', 'raise'])),
-          'cb_kind': draw(st.sampled_from(CB_KINDS))}
+          'cb_kind': draw(st.sampled_from(CB_KINDS)), 'texts': texts}
 
 
 def plan(tier, seed):
